@@ -124,8 +124,32 @@ class Exec(StmtMixin):
                     raise Unsupported("%s is declared pure but reads an attribute (line %s)" % (c.qual, n.lineno))
                 if isinstance(n, (ast.Call, ast.Await, ast.Yield, ast.Global, ast.Nonlocal)):
                     raise Unsupported("%s is declared pure but contains %s (line %s)" % (c.qual, type(n).__name__, n.lineno))
+        body = self.fnode.body
+        frag = getattr(c, "fragment_", None)
+        if frag is not None:
+            # Fragment contract: one statement of the real function (found by its header text) is verified
+            # against a declared entry state of the locals it uses; the surrounding code is NOT verified by
+            # this contract and is named as such in the evidence.
+            want = " ".join(frag.split())
+            hits = [n for n in ast.walk(self.fnode) if isinstance(n, ast.stmt)
+                    and " ".join(self.module.segment(n).split("\n")[0].strip().rstrip(":").split()) == want]
+            if len(hits) != 1:
+                raise BindingError("fragment %r of %s matches %d statements" % (frag, c.qual, len(hits)))
+            body = [hits[0]]
+            self.note("fragment contract: only the statement `%s` (line %d) of %s is verified; its context is not"
+                      % (frag, hits[0].lineno, c.qual))
+            for n, ty in getattr(c, "locals_", {}).items():
+                v = ty.named("l_" + n)
+                if isinstance(ty, (List, Set, Dict)):
+                    v.lv = ("local", n)
+                self.assume_valid(st, v)
+                st.env[n] = v
+            self.entry = st.copy()
+            for lbl, e in getattr(c, "frag_requires_", []):
+                st.assume(self.spec_assume(e, st, old=self.entry))
+            self.entry = st.copy()
         self.raises_stack.append([])
-        outs = self.exec_block(self.fnode.body, st)
+        outs = self.exec_block(body, st)
         outs = outs + self.raises_stack.pop()
         n_normal = 0
         for o in outs:
@@ -159,7 +183,7 @@ class Exec(StmtMixin):
         line = self.fnode.lineno
         # in a postcondition a parameter name denotes the value the caller passed (locals,
         # including re-assigned parameters, are not visible); heap and ghosts are the final ones
-        extra = dict(self.entry.env)
+        extra = dict(self.entry.env) if getattr(c, "fragment_", None) is None else {}     # a fragment's post speaks of final locals
         extra["result"] = res
         for lbl, exc, when, ens, exact in c.raises_:
             if exact and when:
